@@ -227,12 +227,13 @@ fn gen_key(rng: &mut Rng, pool: &mut Vec<Vec<u8>>) -> Vec<u8> {
     if !pool.is_empty() && rng.chance(500) {
         return rng.pick(pool).clone();
     }
-    let inherited = ["PATH", "HOME", "LANG", "USER", "PWD"];
+    // (names that differ only in letter case are different variables)
+    let inherited = ["PATH", "HOME", "LANG", "USER", "PWD", "Path", "path", "home", "http_proxy", "HTTP_PROXY"];
     let k: Vec<u8> = if rng.chance(250) {
         rng.pick(&inherited).as_bytes().to_vec()
     } else {
         let n = rng.range(1, 8) as usize;
-        (0..n).map(|_| *rng.pick(&[b'A', b'b', b'_', b'9', b' ', b'-', 0xc3, 0xa9])).collect()
+        (0..n).map(|_| *rng.pick(&[b'A', b'a', b'b', b'B', b'_', b'9', b' ', b'-', 0xc3, 0xa9])).collect()
     };
     pool.push(k.clone());
     k
